@@ -31,6 +31,30 @@ def gen_crash_case(rng: random.Random, tier: str) -> dict:
     names = ['INBOX']
     selected = None
     n_added = 0
+    if rng.random() < 0.25:
+        # a hierarchy worth renaming: a mailbox, an inferior, and a sibling
+        # whose name merely starts with the same letters, all with mail
+        base = rng.choice(['Work', 'Arch'])
+        for name in (base, base + '/Sub', base + rng.choice(['2', 'ive']),
+                     base + '/' + base + 'shop'):
+            if rng.random() < 0.8:
+                steps.append({'actions': [{'kind': 'create', 'sess': 0,
+                                           'mailbox': name}],
+                              'sched_seed': None})
+                names.append(name)
+                if rng.random() < 0.7:
+                    t = tokens.take()
+                    steps.append({'actions': [{
+                        'kind': 'append', 'sess': 0, 'mailbox': name,
+                        'msgs': [{'data': make_message(t), 'token': t}],
+                        'literal': 'litplus'}], 'sched_seed': None})
+                    n_added += 1
+        steps.append({'actions': [{'kind': 'rename', 'sess': 0,
+                                   'mailbox': base,
+                                   'to': rng.choice(['Moved', 'Home',
+                                                     base + 'R'])}],
+                      'sched_seed': None})
+        names.append(steps[-1]['actions'][0]['to'])
     for _ in range(rng.randint(3, 12)):
         kind = rng.choices(['append', 'store', 'copy', 'move', 'expunge',
                             'create', 'rename', 'subscribe', 'check',
@@ -64,7 +88,8 @@ def gen_crash_case(rng: random.Random, tier: str) -> dict:
                        mailbox=rng.choice(names))
             n_added += 1
         elif kind == 'create':
-            name = rng.choice(['Work', 'Work/Sub', 'Archive', 'x y'])
+            name = rng.choice(['Work', 'Work/Sub', 'Archive', 'x y',
+                               'Work2', 'Arch', 'Work/Workshop'])
             act['mailbox'] = name
             if name not in names:
                 names.append(name)
@@ -73,7 +98,8 @@ def gen_crash_case(rng: random.Random, tier: str) -> dict:
             if not cands:
                 continue
             act['mailbox'] = rng.choice(cands)
-            act['to'] = act['mailbox'].split('/')[0] + 'R'
+            act['to'] = rng.choice([act['mailbox'].split('/')[0] + 'R',
+                                    'Moved', 'Home'])
             names.append(act['to'])
         elif kind == 'subscribe':
             act['mailbox'] = rng.choice(names)
@@ -378,6 +404,14 @@ def run_crash(case: dict, trace: bool = False, prop: str = 'C15') -> dict:
                 break
             if cmd.ok:
                 if act['kind'] == 'create':
+                    if model.box(act['mailbox']) is None:
+                        # a new mailbox under a name that may have been used
+                        # before (renamed away): its UIDs start afresh
+                        for k in [k for k in ledger
+                                  if k[0] == act['mailbox']]:
+                            del ledger[k]
+                            ledger_at.pop(k, None)
+                        uidvals.pop(act['mailbox'], None)
                     model.create(act['mailbox'])
                 elif act['kind'] == 'rename':
                     old, new = act['mailbox'], act['to']
@@ -388,6 +422,16 @@ def run_crash(case: dict, trace: bool = False, prop: str = 'C15') -> dict:
                             model.boxes[box.name] = box
                             if model.selected == n:
                                 model.selected = box.name
+                            # what was acknowledged under the old name now
+                            # lives under the new one
+                            # (the old entries stay for the images taken
+                            # before the rename)
+                            for k in [k for k in ledger if k[0] == n]:
+                                ledger[(box.name, k[1])] = ledger[k]
+                                ledger_at[(box.name, k[1])] = \
+                                    ledger_at.get(k, i)
+                            if n in uidvals:
+                                uidvals[box.name] = uidvals[n]
                 elif act['kind'] == 'subscribe':
                     subscribed.add(act['mailbox'])
                 else:
